@@ -118,7 +118,7 @@ def setup_worker(ctx):
     _state["ctx"] = ctx
 
 
-def response(qr, case, out, E=None, J=None, dip=None, widths=None, pol=None, rot=None, scale=1.0, polrot=None, mult=2):
+def response(qr, case, out, E=None, J=None, dip=None, widths=None, pol=None, rot=None, scale=1.0, polrot=None, mult=2, pre_t2=None):
     from quantarhei.spectroscopy.mocktwodcalculator import MockTwoDResponseCalculator
     E = case["E"] if E is None else E
     J = numpy.array(case["J"] if J is None else J, dtype=float)
@@ -170,6 +170,10 @@ def response(qr, case, out, E=None, J=None, dip=None, widths=None, pol=None, rot
         agg.diagonalize()
         lab = qr.LabSetup()
         lab.set_pulse_polarizations(pulse_polarizations=(pol[0], pol[1], pol[2]), detection_polarization=pol[3])
+        if pre_t2 is not None:
+            # the same calculator, aggregate, evolution superoperator and lab objects used for other waiting times first
+            for k in pre_t2:
+                calc.calculate_one_system(float(t2a.data[k]), agg, eUt, lab)
         tw = calc.calculate_one_system(float(t2a.data[case["t2_index"]]), agg, eUt, lab)
         res = {}
         for f in (qr.signal_TOTL, qr.signal_REPH, qr.signal_NONR):
@@ -206,6 +210,13 @@ def run_case(case, ctx):
     smax = float(numpy.max(numpy.abs(base[T])))
     tol = 1e-9 * max(smax, 1e-300)
     ctx.check("total==reph+nonr", float(numpy.max(numpy.abs(base[T] - base[qr.signal_REPH] - base[qr.signal_NONR]))), tol, det)
+    # the response for one waiting time does not depend on which waiting times the same objects were used for before
+    with ctx.lib("calculator re-used for several waiting times", mechanism=None):
+        others = [k for k in range(3) if k != case["t2_index"]]
+        r_re, _n = response(qr, case, out, pre_t2=others + [case["t2_index"]])
+    for f in (T, qr.signal_REPH, qr.signal_NONR):
+        ctx.check("total==reph+nonr", float(numpy.max(numpy.abs(r_re[f] - base[f]))), 1e-12 * max(smax, 1e-300),
+                  dict(det, signal=f, what="same calculator/aggregate/superoperator objects used for other waiting times first"))
     R1 = Rotation.random(random_state=int(rng.integers(1 << 30))).as_matrix()
     R2 = Rotation.random(random_state=int(rng.integers(1 << 30))).as_matrix()
     # scale factors over three and a half decades: the pathway filters must be relative to the dipole scale
